@@ -155,7 +155,9 @@ def Res.show : Res → String
   | .ok p => "ok " ++ p
   | .err => "err" | .panic => "panic" | .skip => "skip" | .bad => "bad"
 
-def obsTensor (t : Tensor Float) : String := s!"dims={showInts t.dims} data={showFs t.data}"
+/-- like the harness: tensors above 100000 elements are not printed -/
+def obsTensor (t : Tensor Float) : String :=
+  if t.data.length > 100000 then s!"dims={showInts t.dims} data=TOOBIG" else s!"dims={showInts t.dims} data={showFs t.data}"
 
 def obsNode (H : Heap Float) (n : Nat) : String :=
   let c := H.ctx n
